@@ -329,6 +329,6 @@ def run(ctx):
 
 META = {
     'technique': 'Rocq proofs (induction on the degree, loop invariants of the NURBS-book tables) that the transcribed kernels equal the Cox-de Boor reference over exact rationals, for every degree/knot vector/point/order + correspondence of the compiled kernels with the exact model within a derived rounding bound',
-    'level_text': 'Theorems (Coq, unbounded: every degree, every open knot vector, every point of the domain incl. knots and both ends, every derivative order): findspan_spec/findspan_unique (span lookup returns the unique non-empty span, the last one at the right end), N_nonneg, N_local, N_partition_of_unity(_all), dN_sum_zero(_all), dN_high_zero for the Cox-de Boor reference; active_values_eq_spec and active_derivs_eq_spec (the transcription of bspline_active_deriv_single returns exactly the reference values and derivatives of every order, all divisors positive: ndu_divisors_pos), single_ev_eq_spec, colloc_row_spec/_values/_derivs (collocation rows carry exactly the p+1 active values at columns first_active..first_active+p), routes_agree. The exact model (coq/lib/Bsp.v, over Qc) is tied to /repo on every run: spans and column indices exactly, every float of active_deriv / single_ev / collocation(_derivs) / ev / deriv within 8(p+1) 2^k eps p!/(p-k)!/h^k of the exact value at ~900 (thorough ~2000) points (every knot, both ends, midpoints, adjacent floats of knots, random; degrees 0..6 quick / 0..12 thorough; span ratios up to 2^40); scalar/array forms and all routes compared bitwise with each other; tensor-product grid/point evaluation and Jacobians against the 1D collocation product, also for a second grid on the same object; non-negativity, sum to one, locality checked directly on the floats.',
+    'level_text': 'Theorems (Coq, unbounded: every degree, every open knot vector, every point of the domain incl. knots and both ends, every derivative order): findspan_spec/findspan_unique (span lookup returns the unique non-empty span, the last one at the right end), N_nonneg, N_local, N_partition_of_unity(_all), dN_sum_zero(_all), dN_high_zero for the Cox-de Boor reference; active_values_eq_spec and active_derivs_eq_spec (the transcription of bspline_active_deriv_single returns exactly the reference values and derivatives of every order, all divisors positive: ndu_divisors_pos), single_ev_eq_spec, colloc_row_spec/_values/_derivs (collocation rows carry exactly the p+1 active values at columns first_active..first_active+p), routes_agree; on top of the rows: spline_ev_spec/_local/_const, spline_deriv_const (ev/deriv = sum of coefficients times reference (derivative) values, only p+1 coefficients enter, constants reproduced) and tp_eval_spec/tp_eval_2d/tp_eval_const/tp_nonneg (collocation rows applied axis by axis give the defining nested sum of the tensor-product spline and of every mixed derivative, any number of axes; partition of unity; non-negativity). The exact model (coq/lib/Bsp.v, over Qc) is tied to /repo on every run: spans and column indices exactly, every float of active_deriv / single_ev / collocation(_derivs) / ev / deriv within 8(p+1) 2^k eps p!/(p-k)!/h^k of the exact value at ~900 (thorough ~2000) points (every knot, both ends, midpoints, adjacent floats of knots, random; degrees 0..6 quick / 0..12 thorough; span ratios up to 2^40); scalar/array forms and all routes compared bitwise with each other; tensor-product grid/point evaluation and Jacobians against the 1D collocation product, also for a second grid on the same object; non-negativity, sum to one, locality checked directly on the floats.',
     'level_note': 'Trusted: Coq kernel + vm_compute; hand transcription of pyx_findspan, bspline_active_deriv_single, _bspline_single_ev_single and the collocation index arithmetic into Gallina (validated by the tie on every run); harness generators and the float bound. Partial in this sense only: IEEE rounding and -O3 -ffast-math code generation inside the compiled kernels are bounded by the tie, not proved; scipy splev (used for degree <= 5) is exercised, not modelled.',
 }
